@@ -94,8 +94,7 @@ def units(ctx, prop):
             for spec in fam2:
                 for st in range(len(STRETCH)):
                     us.append(("pess", prop, spec, 2, sc, st, ctx.seed, ctx.thorough, 0))
-                    if ctx.thorough or st == 0:
-                        us.append(("pess", prop, spec, 2, sc, st, ctx.seed, ctx.thorough, 1))
+                    us.append(("pess", prop, spec, 2, sc, st, ctx.seed, ctx.thorough, 1))
         for spec in fam3:
             us.append(("pess", prop, spec, 3, scs[0], 0, ctx.seed, ctx.thorough, 0))
             us.append(("pess", prop, spec, 3, scs[0], 0, ctx.seed, ctx.thorough, 1))
@@ -189,10 +188,10 @@ def run_rect(unit, res, only=None):
     order = cones.make_order(spec)
     W = order.ordering_cone.W
     n_lat = 3 if m == 2 else 2
-    if m == 2 and thorough and prop == "C09":
-        n_lat = 4
+    if m == 2 and thorough and prop == "C09" and (sum(map(ord, cones.name(spec))) % 2 == 0 or spec[0] == "comp"):
+        n_lat = 4  # all x all on the 5x5 corner lattice for about half of the cone family (cost)
     rects = lattice.rectangles(m, n_lat)
-    r1s = _r1_shapes(m, thorough and prop == "C09")
+    r1s = _r1_shapes(m, thorough and prop == "C09" and n_lat == 4)
     if r1s is None:
         i1s = list(range(len(rects)))
     else:
@@ -393,7 +392,7 @@ def run_pess(unit, res):
     _, prop, spec, m, sc, st, seed, thorough, far = unit
     core.import_vopy()
     rects = lattice.rectangles(m, 2 if m == 2 else 1, degenerate=True)
-    subs = range(9) if thorough else [(seed + k) % 9 for k in (0, 4)]
+    subs = range(9) if thorough else [(seed + k) % 9 for k in (0, 2, 4, 7)]
     i1s = range(len(rects))
     i2s = range(len(rects))
     nv = 0
